@@ -76,6 +76,8 @@ def run(res, programs, tier):
             polarity.rule(res, P, P.name, "R10.4")
             from . import halftest
             halftest.rule(res, P, P.name, "R10.5")
+        if "dashu_float" in P.units:
+            _r10_6(res, P, P.name)
 
 
 def _dispatch_for(P, mode):
@@ -256,6 +258,75 @@ def _r10_3(res, P, cfgname):
             want = Big(orc(Fraction(n, d)))
             key = "Repr::%s(%d/%d)" % (name, n, d)
             _judge(res, "R10.3", cfgname, key, r, want, f)
+
+
+# ---------------------------------------------------------------------------------------------
+# R10.6  FBig::with_precision wraps its value with the *new* context.  The value must have been rounded by
+# that context (`new_context.repr_round(..)`) on every path, except where it provably fits already: the
+# old precision is not larger than the new one AND the old precision is limited (0 means unlimited and is
+# larger than every other precision) or the value is infinite.  Found F29.
+def _r10_6(res, P, cfgname):
+    from . import guards
+    res.rule("R10.6", "FBig::with_precision: the value wrapped with the new context was rounded by it, or sits on a path that established old precision <= new precision and (old precision limited or value infinite)")
+    path = "dashu_float::convert::<impl dashu_float::fbig::FBig<R, B>>::with_precision"
+    f = next((g for g in P.fns("dashu_float") if g["p"] == path), None)
+    if f is None:
+        res.anchor("R10.6", cfgname, "fn " + path)
+        return
+    b = f["mir"]
+    S = sym.Sym(f)
+    cfg = mir.cfg_of(b)
+    du = mir.defuse_of(b)
+    # the Rounded<Repr> handed to Approximation::map
+    val = None
+    for bb, t, fr in mir.iter_calls(b):
+        cp = fr and (fr.get("rp") or fr["p"])
+        if cp and cp.endswith("Approximation::<T, E>::map") and t["d"]["l"] == 0:
+            val = mir.op_local(t["a"][0])
+    if val is None:
+        res.anchor("R10.6", cfgname, "the `.map(|v| Self::new(v, new_context))` call of with_precision")
+        return
+    # follow plain moves
+    seen = set()
+    while val not in seen:
+        seen.add(val)
+        d = du.single_def(val)
+        if d and d[1] != "t" and d[2]["rv"]["k"] == "use" and mir.op_local(d[2]["rv"]["a"]) is not None:
+            val = mir.op_local(d[2]["rv"]["a"])
+    le_targets, lim_targets = set(), set()
+    for a, bto, fact in S.edge_facts():
+        for c in guards.constraints(fact):
+            if c[0] == "rel":
+                _, op, A, B = c
+                ta, tb = sym.term_str(sym.strip_casts(A), 80), sym.term_str(sym.strip_casts(B), 80)
+                if ("context.precision" in ta and tb == "arg2" and op in ("Le", "Lt", "Eq")) or (ta == "arg2" and "context.precision" in tb and op in ("Ge", "Gt", "Eq")):
+                    le_targets.add(bto)
+            elif c[0] == "bool" and isinstance(c[1], tuple) and c[1][0] == "call" and c[2] is True:
+                if c[1][1].endswith(("::is_limited", "::is_infinite")) and "arg1" in sym.term_str(c[1], 120):
+                    lim_targets.add(bto)
+    n = 0
+    for (bb, idx, node) in du.defs.get(val, []):
+        if bb not in cfg.reachable():
+            continue
+        n += 1
+        if idx == "t":
+            cp = mir.callee_path(node) or ""
+            recv = sym.term_str(S.operand(node["a"][0]), 120) if node["a"] else ""
+            key = "with_precision value from " + cp.rsplit("::", 1)[-1]
+            if cp.endswith(("::repr_round", "::repr_round_ref")) and "Context::<R>::new(arg2)" in recv:
+                res.ok("R10.6", cfgname, key, sample=dict(function=path, rounded_by="the new context"))
+            else:
+                res.fail("R10.6", cfgname, key, "with_precision wraps the result of %s (receiver %s) with the new context: not a rounding by the new context" % (cp, recv), mir.span_loc(node["sp"]))
+        else:
+            key = "with_precision value unrounded (Exact)"
+            ok_le = bool(le_targets) and cfg.must_pass(le_targets, 0, {bb})
+            ok_lim = bool(lim_targets) and cfg.must_pass(lim_targets, 0, {bb})
+            if ok_le and ok_lim:
+                res.ok("R10.6", cfgname, key, sample=dict(function=path, edges="old precision <= new; old precision limited or value infinite"))
+            else:
+                res.fail("R10.6", cfgname, key, "with_precision passes the value on unrounded on a path that does not establish %s: a value with unlimited precision (0) keeps all its digits under the new, smaller precision" % (
+                    "old precision <= new precision" if not ok_le else "that the old precision is limited (non-zero) or the value infinite"), mir.span_loc(node.get("sp", f["sp"])))
+    res.floor("R10.6", cfgname, n, 2, "definitions of the value wrapped by with_precision")
 
 
 LEVEL = LEVEL + ' Also (R10.2b) every Inexact adjustment of the mode-generic rounding functions comes from a call on the mode R, (R10.4) the log2-estimate half test and all bound-returning functions are polarity-correct, (R10.5) half tests compare a remainder with its own divisor.'
